@@ -133,7 +133,11 @@ func (viso *VirtualISO) init() error {
 
 		volumeName = ps3ModeVolumeName
 	} else {
-		_, volumeName = filepath.Split(viso.root)
+		// name of directory itself, however its path is written ("/games/GAME/" is the same directory as "/games/GAME")
+		volumeName = filepath.Base(filepath.Clean(viso.root))
+		if volumeName == string(filepath.Separator) || volumeName == "." {
+			volumeName = ""
+		}
 	}
 
 	if err := viso.buildFS(volumeName, gameCode); err != nil {
